@@ -77,6 +77,14 @@ StageSquares(i, b) ==
            [] i = 5 -> RankSet(3)                                                                                \* first slider, on the rank
            [] i = 6 -> LET k == CHOOSE q \in Squares : b[q] = "k"
                        IN FileSet(FileOf(k)) \cup RankSet(RankOf(k)))                                          \* second slider, on a line of the king
+    [] Family \in {"EPBBw", "EPBBb"} ->   \* two enemy bishops / queens on the diagonals of the capturer's king
+        (CASE i = 1 -> RankSet(1) \cap FilesOf(PusherFiles)                                                     \* P
+           [] i = 2 -> {t \in RankSet(3) : \E q \in Where(b, "P") : Abs(FileOf(q) - FileOf(t)) = 1}          \* p
+           [] i = 3 -> LET S == Where(b, "p") \cup {q + 8 : q \in Where(b, "P")}                               \* k on a diagonal through the capturer or the target
+                       IN {t \in Squares : \E q \in S : t # q /\ Abs(FileOf(t) - FileOf(q)) = Abs(RankOf(t) - RankOf(q))}
+           [] i = 4 -> {0, 63}                                                                                   \* K
+           [] i \in {5, 6} -> LET k == CHOOSE q \in Squares : b[q] = "k"
+                              IN {t \in Squares : t # k /\ Abs(FileOf(t) - FileOf(k)) = Abs(RankOf(t) - RankOf(k))})
     [] Family = "EPALLw" ->     \* every file: White pushes, Black captures, kings on a few far squares
         (CASE i = 1 -> RankSet(1)
            [] i = 2 -> {t \in RankSet(3) : \E q \in Where(b, "P") : Abs(FileOf(q) - FileOf(t)) = 1}
@@ -112,6 +120,7 @@ StageMen ==
     [] Family \in {"EP2w", "EP2b"} -> << {"P"}, {"p"}, {"p"}, {"k"}, {"K"}, {"R","B","Q"} >>
     [] Family \in {"ROOKCAPw", "ROOKCAPb"} -> << {"k"}, {"r"}, {"K"} >>
     [] Family \in {"EPRRw", "EPRRb"} -> << {"P"}, {"p"}, {"k"}, {"K"}, {"R", "Q"}, {"R", "Q"} >>
+    [] Family \in {"EPBBw", "EPBBb"} -> << {"P"}, {"p"}, {"k"}, {"K"}, {"B", "Q"}, {"B", "Q"} >>
     [] Family = "EPALLw" -> << {"P"}, {"p"}, {"k"}, {"K"} >>
     [] Family = "EPALLb" -> << {"p"}, {"P"}, {"K"}, {"k"} >>
     [] Family = "EPXw" -> << {"P"}, {"p"}, {"k"}, {"K"}, {"R","B","Q"} >>
@@ -119,15 +128,15 @@ StageMen ==
     [] Family = "RAND" -> << {"K"}, {"k"} >> \o [j \in 1..(IF Sub = 0 THEN 8 ELSE Sub) |-> Men \ {"K", "k"}]
     [] Family \in {"PINw", "PINb"} -> << {"K"}, {"P","N","B","R","Q"}, {"b","r","q"}, {"k"} >>
     [] Family = "CASTLE" -> << {"K"}, {"R"}, {"R"}, {"k"}, {"r"}, {"r"},
-                               IF Sub = 0 THEN {"Q","R","B","N","q","r","b","n"}
-                               ELSE IF Sub = 1 THEN {"Q","n"} ELSE {"q","N","B","r"} >>
+                               IF Sub = 0 THEN {"Q","R","B","N","P","q","r","b","n","p"}
+                               ELSE IF Sub = 1 THEN {"Q","n","P"} ELSE {"q","N","B","r","p"} >>
     [] OTHER -> << >>
 NStages == Len(StageMen)
 
-MirroredFamilies == {"PINb", "EP2b", "ROOKCAPb", "EPRRb"}     \* built with White's men, then colour-mirrored
+MirroredFamilies == {"PINb", "EP2b", "ROOKCAPb", "EPRRb", "EPBBb"}     \* built with White's men, then colour-mirrored
 
 StmChoices ==
-  CASE Family \in {"EPw","EPXw","EPALLw","EP2w","EP2b","ROOKCAPw","ROOKCAPb","EPRRw","EPRRb"} -> {"w"}
+  CASE Family \in {"EPw","EPXw","EPALLw","EP2w","EP2b","ROOKCAPw","ROOKCAPb","EPRRw","EPRRb","EPBBw","EPBBb"} -> {"w"}
     [] Family \in {"EPb","EPXb","EPALLb"} -> {"b"}
     [] Family \in {"PINw","PINb"} -> {"w"}
     [] OTHER -> {"w","b"}
@@ -308,7 +317,7 @@ LemmasOK(p, ms) ==
   /\ (Lemmas >= 2) => Assert(Lemma2(p, ms), <<"spec lemma 2 (mirror/flip) fails at", WriteFen(p)>>)
 
 FirstPly(p, ms) ==   \* EP families: the first ply is the double push of the staged pawn
-  IF depth = 0 /\ Family \in {"EPw","EPb","EPXw","EPXb","EPALLw","EPALLb","EP2w","EP2b","EPRRw","EPRRb"} THEN {m \in ms : IsDouble(p, m)} ELSE ms
+  IF depth = 0 /\ Family \in {"EPw","EPb","EPXw","EPXb","EPALLw","EPALLb","EP2w","EP2b","EPRRw","EPRRb","EPBBw","EPBBb"} THEN {m \in ms : IsDouble(p, m)} ELSE ms
 
 Play ==
   /\ stage = Done
